@@ -92,6 +92,21 @@ def gen_amps(rng, tio, n):
 
 def gen_ops(rng, tio, torch, n):
     """a FullOp: list of (coeff, [(QuditOp | tensor, targets)])"""
+    if n >= 3 and rng.random() < 0.4:
+        # sums of tensor products on disjoint qubits, e.g. 2 X_0 Z_1 + 0.5j n_2: a term with several single-target factors followed by
+        # terms that do not touch those qubits (nothing may leak from one term into the next)
+        X = {"gr": 1.0 + 0j, "rg": 1.0 + 0j}
+        Z = {"gg": 1.0 + 0j, "rr": -1.0 + 0j}
+        N = {"rr": 1.0 + 0j}
+        Y = {"gr": -1j, "rg": 1j}
+        ops = []
+        for _ in range(rng.randint(2, 4)):
+            qs = rng.sample(range(n), rng.randint(1, min(3, n)))
+            factors = [(dict(rng.choice([X, Z, N, Y])), [q if rng.random() < 0.8 else q - n]) for q in qs]
+            if rng.random() < 0.3:                                   # one factor acting on two qubits at once
+                factors[-1] = (factors[-1][0], factors[-1][1] + [rng.choice([q for q in range(n)])])
+            ops.append((rng.choice([2.0 + 0j, 0.5j, -1.0 + 0j, tio.cdyad(rng, 1, 2)]), factors))
+        return "structured", ops
     ops = []
     kind = "ok"
     for _ in range(rng.randint(0, 3)):
@@ -282,6 +297,10 @@ def correspondence(rep: Report, rng, tier: str) -> None:
         except (KeyError, IndexError, TypeError) as e:
             D = None
             add(f"op.repr {n} {enc}", "raise", type(e).__name__, m)
+        except Exception as e:
+            D = None
+            rep.fail(f"DenseOperator._from_operator_repr raised {type(e).__name__}: {e}", dict(n=n, ops=enc, kind="repr", ops_json=ops_json(ops)))
+            add(f"op.repr {n} {enc}", "raise", type(e).__name__, m)
         if STATE["sparse_unsafe"]:
             continue
         try:
@@ -404,8 +423,9 @@ def oracle(rep: Report, rng, count: int) -> None:
             # operators
             m = min(n, 6)
             kind_g, ops = gen_ops(rng, tio, torch, m)
-            if kind_g == "ok":
-                ops = [(g(), [((({k: g() for k in s}) if isinstance(s, dict) else s), t) for s, t in fs]) for _, fs in ops]
+            if kind_g in ("ok", "structured"):
+                if kind_g == "ok":
+                    ops = [(g(), [((({k: g() for k in s}) if isinstance(s, dict) else s), t) for s, t in fs]) for _, fs in ops]
                 ref = np_from_repr(np, m, ops)
                 D, _ = DO._from_operator_repr(eigenstates=("r", "g"), n_qudits=m, operations=ops)
                 data = dict(kind="repr", n=m, ops=enc_ops(tio, ops), ops_json=ops_json(ops), skip_sparse=STATE["sparse_unsafe"])
